@@ -17,8 +17,8 @@ pub use mc_core::tier::*;
 
 use std::ops::*;
 
-pub fn rq<T: Tier>(r: R) -> T {
-    T::q(r.0, r.1)
+pub fn rq<T: Dom>(r: R) -> T {
+    T::from_r(r).expect("value not representable in this scalar domain")
 }
 
 // ---------------------------------------------------------------- vectors / points
@@ -100,7 +100,7 @@ pub fn basis2_arr<T: Tier>(b: Basis2<T>) -> [[T; 2]; 2] {
 }
 
 /// Dimension-generic view of cgmath's vectors for the harness.
-pub trait VecN<T: Tier, const N: usize>:
+pub trait VecN<T: Dom, const N: usize>:
     Copy
     + std::fmt::Debug
     + PartialEq
@@ -110,7 +110,6 @@ pub trait VecN<T: Tier, const N: usize>:
     + Array<Element = T>
     + ElementWise
     + ElementWise<T>
-    + Neg<Output = Self>
     + AddAssign
     + SubAssign
     + MulAssign<T>
@@ -125,7 +124,7 @@ pub trait VecN<T: Tier, const N: usize>:
 }
 macro_rules! vecn {
     ($V:ident, $n:expr, $mk:ident, $arr:ident) => {
-        impl<T: Tier> VecN<T, $n> for $V<T> {
+        impl<T: Dom> VecN<T, $n> for $V<T> {
             const NAME: &'static str = stringify!($V);
             fn mk(a: [T; $n]) -> Self {
                 $mk(a)
@@ -156,7 +155,7 @@ pub trait MatN<T: Tier, const N: usize>:
     + Send
     + Sync
 {
-    type V: VecN<T, N>;
+    type V: VecN<T, N> + Neg<Output = Self::V>;
     const NAME: &'static str;
     fn mk(a: [[T; N]; N]) -> Self;
     fn arr(self) -> [[T; N]; N];
@@ -227,10 +226,10 @@ impl<T: Tier> MatN<T, 4> for Matrix4<T> {
 }
 
 /// build an `N x N` array from a flat list of rationals (column-major)
-pub fn mat_from_r<T: Tier, const N: usize>(r: &[R]) -> [[T; N]; N] {
+pub fn mat_from_r<T: Dom, const N: usize>(r: &[R]) -> [[T; N]; N] {
     std::array::from_fn(|c| std::array::from_fn(|row| rq::<T>(r[c * N + row])))
 }
-pub fn vec_from_r<T: Tier, const N: usize>(r: &[R]) -> [T; N] {
+pub fn vec_from_r<T: Dom, const N: usize>(r: &[R]) -> [T; N] {
     std::array::from_fn(|i| rq::<T>(r[i]))
 }
 /// apply deviations `(position, letter)` to a flat rational list
@@ -254,21 +253,21 @@ macro_rules! for_float_tiers {
 
 /// BFS state: a flat register file of scalars, hashed/compared by `Tier::key`.
 #[derive(Clone, Debug)]
-pub struct St<T: Tier>(pub Vec<T>);
-impl<T: Tier> PartialEq for St<T> {
+pub struct St<T: Dom>(pub Vec<T>);
+impl<T: Dom> PartialEq for St<T> {
     fn eq(&self, o: &Self) -> bool {
         self.0.len() == o.0.len() && self.0.iter().zip(&o.0).all(|(a, b)| a.key() == b.key())
     }
 }
-impl<T: Tier> Eq for St<T> {}
-impl<T: Tier> std::hash::Hash for St<T> {
+impl<T: Dom> Eq for St<T> {}
+impl<T: Dom> std::hash::Hash for St<T> {
     fn hash<H: std::hash::Hasher>(&self, h: &mut H) {
         for x in &self.0 {
             x.key().hash(h);
         }
     }
 }
-impl<T: Tier> St<T> {
+impl<T: Dom> St<T> {
     pub fn mat<const N: usize>(&self, off: usize) -> [[T; N]; N] {
         std::array::from_fn(|c| std::array::from_fn(|r| self.0[off + c * N + r]))
     }
@@ -281,4 +280,41 @@ impl<T: Tier> St<T> {
 }
 pub fn flat_m<T: Copy, const N: usize>(m: [[T; N]; N]) -> Vec<T> {
     m.iter().flat_map(|c| c.iter().copied()).collect()
+}
+
+/// negation where the scalar domain has it (unsigned integers do not)
+pub trait MaybeNeg: Sized {
+    fn try_neg(self) -> Option<Self>;
+}
+macro_rules! maybe_neg {
+    ($V:ident) => {
+        maybe_neg!(@s $V; Ex, f64, f32, i8, i16, i32, i64, isize);
+        maybe_neg!(@u $V; u8, u16, u32, u64, usize);
+    };
+    (@s $V:ident; $($s:ty),*) => { $( impl MaybeNeg for $V<$s> { fn try_neg(self) -> Option<Self> { Some(-self) } } )* };
+    (@u $V:ident; $($u:ty),*) => { $( impl MaybeNeg for $V<$u> { fn try_neg(self) -> Option<Self> { None } } )* };
+}
+maybe_neg!(Vector1);
+maybe_neg!(Vector2);
+maybe_neg!(Vector3);
+maybe_neg!(Vector4);
+
+/// run a generic function once per scalar domain (3 tiers + 10 integer types)
+#[macro_export]
+macro_rules! for_all_doms {
+    ($f:ident, $($arg:expr),*) => {{
+        $f::<mc_core::Ex>($($arg),*);
+        $f::<f64>($($arg),*);
+        $f::<f32>($($arg),*);
+        $f::<i8>($($arg),*);
+        $f::<i16>($($arg),*);
+        $f::<i32>($($arg),*);
+        $f::<i64>($($arg),*);
+        $f::<isize>($($arg),*);
+        $f::<u8>($($arg),*);
+        $f::<u16>($($arg),*);
+        $f::<u32>($($arg),*);
+        $f::<u64>($($arg),*);
+        $f::<usize>($($arg),*);
+    }};
 }
